@@ -12,7 +12,7 @@
      amp_ok s                   every ampersand in s begins one of &amp; &lt; &gt; &quot; &#x27; &#039;
      markup_free s              s contains none of < > & and no quote
      isp                        the Unicode table behind str.isprintable: arbitrary *)
-From Verif Require Import lib.Base lib.Str lib.Html lib.PyRepr model.ErrPage proofs.C20_html.
+From Verif Require Import lib.Base lib.Str lib.Html lib.PyRepr model.ErrPage proofs.C20_html proofs.C20_json.
 
 (* For every error object (whatever its status line and body), every url string
    and every printability table: with debug off the page is
@@ -85,6 +85,53 @@ Theorem C20_critical_page_safe :
 Proof. exact critical_page_safe_lemma. Qed.
 Print Assumptions C20_critical_page_safe.
 
+(* JSON rendering.  parse_json_obj is the JSON reader of model/ErrPage.v (RFC 8259
+   objects whose values are strings or null; string literals in full).  For ALL
+   body / exception / traceback strings the JSON error body is accepted by it
+   and has exactly the members body, exception, traceback; jdec s is what the
+   reader makes of the literal the encoder wrote for s ... *)
+Theorem C20_json_valid :
+  forall (isp : N -> bool) (e : err),
+    parse_json_obj (error_json isp e)
+    = JOk [(k_body, Some (jdec (e_body e)));
+           (f_exception, Some (jdec (repr_exc isp (e_exc e))));
+           (f_traceback, option_map jdec (e_tb e))].
+Proof. exact error_json_valid. Qed.
+Print Assumptions C20_json_valid.
+
+(* ... and that is s itself whenever s consists of Unicode scalar values (below
+   0x110000, no surrogate code points; a lone surrogate next to another one is
+   the only thing json.loads would read back differently). *)
+Theorem C20_json_reads_back :
+  forall s : str, forallb is_scalar s = true -> jdec s = s.
+Proof. exact join_scalar. Qed.
+Print Assumptions C20_json_reads_back.
+
+(* The whole response of a framework error with debug off: JSON when the Accept
+   header starts with application/json (the url is not part of it at all),
+   otherwise the HTML page of C20_html_safe with the default Content-Type. *)
+Theorem C20_error_response_shape :
+  forall (isp : N -> bool) (k : kind) (x : exc) (tb : option str) (url : str) (accept : option str) (e : err),
+    err_of_kind k x tb = Some e ->
+    respond_error isp k x tb url accept false
+    = if is_json_requested accept
+      then Resp (e_status e) ctype_json (error_json isp e)
+      else Resp (e_status e) Gen.default_content_type (html_pre e ++ url_text isp url ++ html_post e).
+Proof. exact error_response_shape. Qed.
+Print Assumptions C20_error_response_shape.
+
+(* OBSERVATION, NOT A VIOLATION OF C20 (C20 asks of the JSON body only that it be
+   valid JSON): default_error_handler's JSON branch has no debug switch, so
+   unlike the HTML page (C20_no_debug_leak) the JSON body carries repr(exception)
+   and the traceback even with debug off.  Recorded so that the behaviour of the
+   model is explicit; reported to the coordinator as out of scope. *)
+Theorem C20_observation_json_branch_exposes_exception :
+  exists (e : err) (x : exc) (tb : option str),
+    default_error_handler (fun _ => true) (mkErr (e_status e) (e_body e) x tb) [] (Some accept_json) false
+    <> default_error_handler (fun _ => true) e [] (Some accept_json) false.
+Proof. exact json_branch_exposes_exception. Qed.
+Print Assumptions C20_observation_json_branch_exposes_exception.
+
 (* non-vacuity: a 404 for a url full of markup *)
 Example C20_nonvacuous :
   let url := [104; 116; 116; 112; 58; 47; 47; 104; 47; 63; 60; 115; 99; 114; 105; 112; 116; 62; 38; 34; 39; 123; 48; 125]%N in
@@ -94,3 +141,11 @@ Example C20_nonvacuous :
   | None => False
   end.
 Proof. vm_compute. repeat split. eexists. split; reflexivity. Qed.
+
+(* non-vacuity of the JSON theorems: a traceback with quotes, a control character, non-ASCII and an astral character *)
+Example C20_json_nonvacuous :
+  let tb := [34; 92; 10; 7; 233; 8232; 128512]%N in
+  forallb is_scalar tb = true
+  /\ parse_json_obj (error_json (fun _ => true) (mkErr [53; 48; 48]%N [60; 98; 62]%N (ExcMsg [69]%N [39; 60]%N) (Some tb)))
+     = JOk [(k_body, Some [60; 98; 62]%N); (f_exception, Some [69; 40; 34; 39; 60; 34; 41]%N); (f_traceback, Some tb)].
+Proof. vm_compute. split; reflexivity. Qed.
